@@ -159,8 +159,10 @@ def select(pool, want_tags=None, need_all=None, exclude=None, limit=None, rng=No
 
 def pool_for(pid, tier, seed):
     core = cfggen.core_pool()
-    nrand = 8 if tier == 'quick' else 48
+    nrand = 24 if tier == 'quick' else 72
     rnd = cfggen.random_pool(seed * 7919 + 17, nrand)
+    names = {c['name'] for c in core}
+    rnd = [c for c in rnd if c['name'] not in names]
     allp = core + rnd
     n = prop_num(pid)
     if n in (1, 9, 10, 16, 18):
